@@ -38,6 +38,10 @@ pub fn check_sign(c: &SignCase) -> CaseResult {
     // the public key the library derived
     let pk_lib_bytes = catch(|| sk.public_key.to_bytes(false)).map_err(|p| Fail { key: "entry=Sm2PublicKey::to_bytes outcome=panic".into(), detail: p })?;
     ensure!(pk_lib_bytes == r2::encode_uncompressed(&pk_ref), "entry=Sm2PrivateKey::new outcome=wrong-public-key", "d={:x}: library {} reference {}", d, hex::encode(&pk_lib_bytes), hex::encode(r2::encode_uncompressed(&pk_ref)));
+    // the key object then holds its public point in the representation selected by msg_seed mod 6 (affine, as computed by g_mul, Z = 2,
+    // random Z, Z with Montgomery limbs [1,0,0,0], Z = p-1): ZA and the signature must not depend on it
+    let mut sk = sk;
+    sk.public_key.point = point_in_rep(&pk_ref, Some(&d), (c.msg_seed % 6) as u8, c.msg_seed);
     let e = r2::digest(id_b, &pk_ref, &msg);
 
     let (sig, exact) = match &c.k {
@@ -122,7 +126,7 @@ pub fn sign_case() -> impl Strategy<Value = SignCase> {
 pub fn run(ctx: &Ctx) {
     let pr = r2::params();
     ctx.set_rule(
-        "cases are (d, ID index, message length+seed, nonce k): d and k from the edge-biased scalar generator reduced into [1,n-2] / [1,n-1] (1, 2, n-2, 2^i, 2^i-1, boundary limbs, single bytes, uniform), \
+        "cases are (d, ID index, message length+seed — the seed also selects the Jacobian representation in which the key object holds its public point —, nonce k): d and k from the edge-biased scalar generator reduced into [1,n-2] / [1,n-1] (1, 2, n-2, 2^i, 2^i-1, boundary limbs, single bytes, uniform), \
          IDs from a pool (None = default, \"\", 1..8191 bytes, multi-byte UTF-8), message lengths 0..4096 biased to hash-block boundaries. With k injected through the RNG hook the 64 bytes must equal the \
          reference signer's output (and the retry rule must consume the same number of candidates); every signature must have r,s in [1,n-1], satisfy the independent verification equation and be accepted \
          by the library. Reference-made signatures and the OpenSSL corpus must be accepted. Non-trivial: exact fixed-nonce comparison done and (non-default ID or |M| > 13 or edge d); reference/OpenSSL-signed cases.",
@@ -142,6 +146,20 @@ pub fn run(ctx: &Ctx) {
             "entry=Sm2PrivateKey::sign outcome=wrong-signature", "Annex example: library {}", hex::encode_upper(&sig));
         pass(true, "annex")
     });
+
+    ctx.exhaustive("keys_and_nonces_with_zero_limbs", "d (resp. k) with an all-zero 64-bit limb below a non-zero limb and zero runs across limb boundaries: exact signature, both verifications", || {
+        let n = &r2::params().n;
+        let mut v = Vec::new();
+        for (i, s) in gen::zero_limb_scalars().into_iter().enumerate() {
+            if &s >= &(n - 2u32) || s.bits() == 0 {
+                continue;
+            }
+            let other = gen::hex32(&(from_be(&expand_bytes(i as u64 ^ 0x2e3, 32)) % (n - 2u32) + 1u32));
+            v.push(SignCase { d: gen::hex32(&s), id: i, msg_len: 10 + i % 50, msg_seed: i as u64, k: Some(other.clone()) });
+            v.push(SignCase { d: other, id: i + 1, msg_len: 3 + i % 70, msg_seed: i as u64 ^ 0xff, k: Some(gen::hex32(&s)) });
+        }
+        v
+    }, check_sign);
 
     ctx.cold("cold_start_sign", "sign (nonce injected) as the first library operation of a fresh process", || {
         let n = &r2::params().n;
